@@ -2,7 +2,7 @@
    Statements only; each proof is one [exact] of a lemma in Proofs/P13.v.
    [injective r]: r maps different names to different names. *)
 From Coq Require Import List Bool ZArith String.
-From XV Require Import Base.Res Base.Assoc Base.Ops Base.Seq1D Base.Tensor Model.Axis Model.GridCtor Model.Pad Model.GridOps Model.Dispatch
+From XV Require Import Base.Res Base.Assoc Base.Ops Base.Seq1D Base.Tensor Model.Axis Model.GridCtor Model.Pad Model.GridOps Model.Dispatch Model.Cumsum
      Model.Signature Model.UFunc Proofs.TensorLemmas Proofs.P13 Proofs.Tie_names Generated.G13.
 Import ListNotations.
 Open Scope string_scope.
@@ -122,7 +122,20 @@ Theorem C13_grid_op : forall (r ra : string -> string), injective r -> injective
   end.
 Proof. intros r ra Hr Hra A o ofZ. exact (grid_op_rename r ra Hr Hra o ofZ). Qed.
 
+(* A third whole entry point: Grid.cumsum over any number of axes, any shift table. *)
+Theorem C13_cumsum : forall (r ra : string -> string), injective r -> injective ra ->
+  forall {A} (o : Ops A) tbl (g : grid A) dssizes c (t : tensor A),
+  respects t ->
+  match grid_cumsum o tbl (rename_grid r ra g) (rename_dims r dssizes) (rename_callcs ra c) (rename_tensor r t),
+        grid_cumsum o tbl g dssizes c t with
+  | Ok t1, Ok t2 => teq t1 (rename_tensor r t2)
+  | Err e1, Err e2 => e1 = e2
+  | _, _ => False
+  end.
+Proof. intros r ra Hr Hra A o. exact (grid_cumsum_rename r ra Hr Hra o). Qed.
+
 Print Assumptions C13_no_name_inspection.
+Print Assumptions C13_cumsum.
 Print Assumptions C13_grid_op.
 Print Assumptions C13_pad.
 Print Assumptions C13_lookup.
